@@ -107,6 +107,21 @@ func (g *gen) decls(exported bool) (decls []string, prints []string) {
 		decls = append(decls, fmt.Sprintf("var %s = func(d int) int { return d + %s }", c, ints[g.r.Intn(len(ints))]))
 		prints = append(prints, c+"(1)")
 	}
+	// predeclared identifiers used at other types / boxed: they live in a scope shared by all builds
+	switch g.r.Intn(4) {
+	case 0:
+		bt, bv := g.id("B"), name("b")
+		decls = append(decls, fmt.Sprintf("type %s bool", bt), fmt.Sprintf("var %s %s = %s", bv, bt, []string{"true", "false"}[g.r.Intn(2)]))
+		prints = append(prints, bv)
+	case 1:
+		fn := name("y")
+		decls = append(decls, fmt.Sprintf("func %s() string {\n\tvar x interface{} = %s\n\tswitch x.(type) {\n\tcase bool:\n\t\treturn \"bool\"\n\t}\n\treturn \"other\"\n}", fn, []string{"true", "false"}[g.r.Intn(2)]))
+		prints = append(prints, fn+"()")
+	case 2:
+		it, iv := g.id("I"), name("n")
+		decls = append(decls, fmt.Sprintf("type %s int", it), fmt.Sprintf("const %s %s = iota + 1", iv, it))
+		prints = append(prints, iv)
+	}
 	k1, k2 := name("k"), name("k")
 	decls = append(decls, fmt.Sprintf("const (\n\t%s = iota + %d\n\t%s\n)", k1, g.r.Intn(9), k2))
 	prints = append(prints, k1, k2)
